@@ -14,7 +14,7 @@ EXPLANATION = (
     "payload (the winner), on the winning edge the loser release is not executed; (R18.4) clone/drop "
     "of the owners take/release a count exactly on the non-null edge; (R18.5) loads whose result is "
     "dereferenced are >= Acquire, the publishing CAS is >= Release on success and >= Acquire on "
-    "failure. Does NOT decide behaviour under interleavings; the orderings rule trusts the C++11 "
+    "failure; (R18.8) a cached decoding re-owned under &mut self outside Drop leaves the pointer null on every path to a return. Does NOT decide behaviour under interleavings; the orderings rule trusts the C++11 "
     "model's meaning of the constants."
 )
 ASSUMPTIONS = [
@@ -451,4 +451,47 @@ def r18_7(ctx):
                f"{c} {kind} site(s) ({nm}) in {_sh(fid)}, {allowed} audited: " + ("the cache gains an owner that no Drop gives back (the decoding is never freed)" if kind == "acquire" else "an owner is given back twice (the decoding is freed under a reader)"))
 
 
-RULES = [("R18.1", r18_1), ("R18.2", r18_2), ("R18.3", r18_3), ("R18.4", r18_4), ("R18.5", r18_5), ("R18.6", r18_6), ("R18.7", r18_7)]
+def r18_8(ctx):
+    """a cached decoding taken back under `&mut self` leaves the cache empty: where a function other than `Drop` turns the pointer
+    read through `AtomicPtr::get_mut` into its owner again (`Box::from_raw` / `Arc::from_raw`), every path from there to a return
+    stores a null pointer through that same reference - otherwise `Drop` frees the decoding a second time (shared with C01)"""
+    from ..analysis import backward_slice
+    prog = ctx.prog()
+    n = 0
+    for f in sorted(prog.fns.values(), key=lambda g: g.id):
+        if f.crate != "sonic_rs" or (f.trait or "").endswith("Drop"):
+            continue
+        gm = [t["dest"][0] for b, t in f.calls() if callee_is(t, "get_mut") and "atomic" in t["callee"] and t.get("dest") and not t["dest"][1]]
+        if not gm:
+            continue
+        nulls = {t["dest"][0] for b, t in f.calls() if callee_is(t, "null_mut", "null") and "ptr::" in t["callee"] and t.get("dest")}
+        resets = set()
+        for bi, blk in enumerate(f.blocks):
+            for st in blk["stmts"]:
+                if st.get("k") != "assign" or not st["lhs"][1] or st["lhs"][1][0] != "*":
+                    continue
+                if st["lhs"][0] not in gm and not (set(gm) & backward_slice(f, [st["lhs"][0]])[0]):
+                    continue
+                o = st["rv"].get("op") if st["rv"].get("k") == "use" else None
+                ol = op_local(o) if o else None
+                if ol is not None and (ol in nulls or (nulls & backward_slice(f, [ol])[0])):
+                    resets.add(bi)
+        k = 0
+        for b, t in f.calls():
+            if not (callee_is(t, "from_raw") and any(x in t["callee"] for x in ("boxed::Box", "sync::Arc")) and t["args"]):
+                continue
+            a = op_local(t["args"][0])
+            if a is None or not (set(gm) & backward_slice(f, [a])[0]):
+                continue
+            n += 1
+            k += 1
+            nxt = t.get("t")
+            free = f.reachable_from(nxt, avoid=resets) if nxt is not None and nxt not in resets else set()
+            bad = free & set(f.return_blocks)
+            ctx.ob("R18.8", f"{_sh(f.id)}:take-back-empties-cache#{k}", not bad, f.loc(t.get("ln")),
+                   "the cached pointer is set to null on every path from the take-back to a return" if not bad else
+                   "the cached Box/Arc is re-owned under &mut self and a return is reached with the pointer still set: Drop frees the decoding again (double free)")
+    ctx.floor("R18.8", "take-back sites of a cached decoding under &mut self", n, 1)
+
+
+RULES = [("R18.1", r18_1), ("R18.2", r18_2), ("R18.3", r18_3), ("R18.4", r18_4), ("R18.5", r18_5), ("R18.6", r18_6), ("R18.7", r18_7), ("R18.8", r18_8)]
